@@ -268,6 +268,18 @@ inline void finish(Json extra) {
     if (st().violations.load() > 0) _exit(0);
 }
 
+// MemAvailable from /proc/meminfo (0 if unknown): scenarios that need gigabytes are skipped, not failed, on small machines
+inline uint64_t memAvailableBytes() {
+    FILE *f = fopen("/proc/meminfo", "r");
+    if (!f) return 0;
+    char line[256];
+    uint64_t kb = 0;
+    while (fgets(line, sizeof line, f))
+        if (sscanf(line, "MemAvailable: %" SCNu64 " kB", &kb) == 1) break;
+    fclose(f);
+    return kb * 1024;
+}
+
 // FNV-1a style incremental hash for fingerprints
 struct Hash {
     uint64_t h = 0xcbf29ce484222325ULL;
